@@ -89,6 +89,16 @@ pub fn world(seed: u64, size: usize) -> World {
         let (u, s, t) = gen::cluster_url(&mut r, &rules);
         queries.push(Q::Net { url: u, src: s, ty: t });
     }
+    // very long URLs (a payload in the query) with multi-byte characters around the 16 KiB and 64 KiB marks, at both byte
+    // parities, counted from the start of the URL and from the end of the host: whatever bounds, windows or chunks the text
+    // handed to a compiled regex must cut at character boundaries, in every thread alike
+    for (k, mark) in [(0usize, 16384usize), (1, 16384), (0, 65536), (1, 65536)] {
+        let head = format!("https://ads0.example/x/banner/r0/twin0/q/b.gif?d={}", if k == 1 { "b" } else { "" });
+        let fill = mark - 100 - head.len();
+        let url = format!("{}{}{}&end=1", head, "a".repeat(fill), "\u{e9}".repeat(120));
+        queries.push(Q::Net { url: url.clone(), src: "https://site0.example/".into(), ty: "script".into() });
+        queries.push(Q::Net { url, src: "https://site0.example/".into(), ty: "image".into() });
+    }
     for i in 0..size.min(12) {
         queries.push(Q::Csp { url: format!("https://csp{}.example/page", i), src: format!("https://csp{}.example/", i) });
         queries.push(Q::Cosmetic { url: format!("https://gh{}.example/index.html", i) });
@@ -174,8 +184,14 @@ pub fn sequential(w: &World) -> Vec<Vec<String>> {
     for round in &w.rounds {
         apply_round(&mut e, round);
         // twice, so that the second pass runs against a warm (and partly discarded) cache
-        let first: Vec<String> = w.queries.iter().map(|q| answer(&e, q)).collect();
-        let second: Vec<String> = w.queries.iter().map(|q| answer(&e, q)).collect();
+        let guarded_answer = |q: &Q| -> String {
+            match std::panic::catch_unwind(std::panic::AssertUnwindSafe(|| answer(&e, q))) {
+                Ok(a) => a,
+                Err(p) => format!("PANIC[{}]", p.downcast_ref::<String>().cloned().or_else(|| p.downcast_ref::<&str>().map(|s| s.to_string())).unwrap_or_else(|| "panic".into()).chars().take(160).collect::<String>()),
+            }
+        };
+        let first: Vec<String> = w.queries.iter().map(|q| guarded_answer(q)).collect();
+        let second: Vec<String> = w.queries.iter().map(|q| guarded_answer(q)).collect();
         assert_eq!(first.len(), second.len());
         all.push(first.iter().zip(second.iter()).map(|(a, b)| if a == b { a.clone() } else { format!("UNSTABLE[{}][{}]", a, b) }).collect());
     }
@@ -260,7 +276,10 @@ pub fn run(seed: u64, n: usize, out: &mut Out, tier: &str) {
             for (i, a) in round.iter().enumerate() {
                 cross.push_str(&format!("{}\t{}\t{}\t{}\n", s, k, i, a));
                 if a.starts_with("UNSTABLE") {
-                    out.fail("sequential-answers-depend-on-cache-state", None, json!({"seed": wseed, "round": k, "query": format!("{:?}", w.queries[i]), "answers": a}));
+                    out.fail("sequential-answers-depend-on-cache-state", None, json!({"seed": wseed, "round": k, "query": format!("{:?}", w.queries[i]).chars().take(300).collect::<String>(), "answers": a.chars().take(400).collect::<String>()}));
+                }
+                if a.contains("PANIC[") {
+                    out.fail("query-panicked", None, json!({"seed": wseed, "round": k, "query": format!("{:?}", w.queries[i]).chars().take(300).collect::<String>(), "answer": a.chars().take(400).collect::<String>()}));
                 }
             }
         }
